@@ -2,41 +2,41 @@ import CircBuf.Lemmas.TieTac
 set_option linter.unusedSimpArgs false
 set_option linter.unusedVariables false
 set_option maxHeartbeats 1000000
-/-! Tie theorems (access group) — see `CircBuf/Lemmas/CoreTie.lean` for what they are. -/
+/-! Tie theorems (element access group) — see `CircBuf/Lemmas/CoreTie.lean` for what they are. -/
 namespace CircBuf
 
 /-! ### element access (the result is the slot the reference points at) -/
-theorem tie_front (s : Sys) (h : Inv s.buf) :
+theorem tie_front (s : Sys) (h : Inv s.buf)
+    (hnd : NonDefect (front? s).1) :
     Gen.front s = front? s := by
-  tie2 h [Gen.front, front?, Gen.front_maybe_uninit, frontSlot]
-theorem tie_front_mut (s : Sys) (h : Inv s.buf) :
+  tie3 h hnd [Gen.front, front?]
+theorem tie_front_mut (s : Sys) (h : Inv s.buf)
+    (hnd : NonDefect (front? s).1) :
     Gen.front_mut s = front? s := by
-  tie2 h [Gen.front_mut, front?, Gen.front_maybe_uninit_mut, frontSlot]
-theorem tie_back (s : Sys) (h : Inv s.buf) :
+  tie3 h hnd [Gen.front_mut, front?]
+theorem tie_back (s : Sys) (h : Inv s.buf)
+    (hnd : NonDefect (back? s).1) :
     Gen.back s = back? s := by
-  tie2 h [Gen.back, back?, Gen.back_maybe_uninit, backSlot]
-theorem tie_back_mut (s : Sys) (h : Inv s.buf) :
+  tie3 h hnd [Gen.back, back?]
+theorem tie_back_mut (s : Sys) (h : Inv s.buf)
+    (hnd : NonDefect (back? s).1) :
     Gen.back_mut s = back? s := by
-  tie2 h [Gen.back_mut, back?, Gen.back_maybe_uninit_mut, backSlot]
-theorem tie_get (i : Nat) (s : Sys) (h : Inv s.buf) :
+  tie3 h hnd [Gen.back_mut, back?]
+theorem tie_get (i : Nat) (s : Sys) (h : Inv s.buf)
+    (hnd : NonDefect (get? i s).1) :
     Gen.get i s = get? i s := by
-  tie2 h [Gen.get, get?, Gen.get_maybe_uninit, getSlot]
-theorem tie_get_mut (i : Nat) (s : Sys) (h : Inv s.buf) :
+  tie3 h hnd [Gen.get, get?]
+theorem tie_get_mut (i : Nat) (s : Sys) (h : Inv s.buf)
+    (hnd : NonDefect (get? i s).1) :
     Gen.get_mut i s = get? i s := by
-  tie2 h [Gen.get_mut, get?, Gen.get_maybe_uninit_mut, getSlot]
-theorem tie_nth_front (i : Nat) (s : Sys) (h : Inv s.buf) :
+  tie3 h hnd [Gen.get_mut, get?]
+theorem tie_nth_front (i : Nat) (s : Sys) (h : Inv s.buf)
+    (hnd : NonDefect (nthFront? i s).1) :
     Gen.nth_front i s = nthFront? i s := by
-  tie2 h [Gen.nth_front, nthFront?, Gen.get, get?, Gen.get_maybe_uninit, getSlot]
-theorem tie_nth_back (i : Nat) (s : Sys) (h : Inv s.buf) :
+  tie3 h hnd [Gen.nth_front, nthFront?]
+theorem tie_nth_back (i : Nat) (s : Sys) (h : Inv s.buf)
+    (hnd : NonDefect (nthBack? i s).1) :
     Gen.nth_back i s = nthBack? i s := by
-  simp only [Gen.nth_back, nthBack?, getBuf_bind]
-  cases checkedSub s.buf.size i with
-  | none => rfl
-  | some q =>
-    simp only []
-    cases checkedSub q 1 with
-    | none => rfl
-    | some j =>
-      simp only [bind_run, pure_run, tie_get j s h]
+  tie3 h hnd [Gen.nth_back, nthBack?]
 
 end CircBuf
